@@ -45,39 +45,43 @@ func genRelayAcctSrc(repo string) (string, error) {
 		es, ok := n.(*ast.ExprStmt)
 		return ok && exprStr(fset, es.X) == want
 	}
-	// inside the loop: position of Connect and of Increase / SetUpstreamHost
-	connectIdx, incIn, hostIn := -1, -1, -1
-	errDec := false
+	// inside the loop: position of Connect and of Increase / SetUpstreamHost / the two active gauges
+	const (
+		sInc   = "clusterConnectionResource.Increase()"
+		sHost  = "p.readCallbacks.SetUpstreamHost(connectionData.Host)"
+		sGHost = "connectionData.Host.HostStats().UpstreamConnectionActive.Inc(1)"
+		sGClu  = "p.clusterInfo.Stats().UpstreamConnectionActive.Inc(1)"
+	)
+	connectIdx := -1
+	in := map[string]int{}
+	errHas := map[string]bool{}
 	for i, st := range loop.Body.List {
 		if is, ok := st.(*ast.IfStmt); ok && is.Init != nil && strings.Contains(exprStr(fset, is.Init), "upstreamConnection.Connect()") {
 			connectIdx = i
-			ast.Inspect(is.Body, func(n ast.Node) bool {
-				if c, ok := n.(*ast.CallExpr); ok && strings.HasSuffix(exprStr(fset, c.Fun), ".Decrease") {
-					errDec = true
+			for _, es := range is.Body.List {
+				if x, ok := es.(*ast.ExprStmt); ok {
+					errHas[exprStr(fset, x.X)] = true
 				}
-				return true
-			})
+			}
 		}
-		if isCall(st, "clusterConnectionResource.Increase()") {
-			incIn = i
-		}
-		if isCall(st, "p.readCallbacks.SetUpstreamHost(connectionData.Host)") {
-			hostIn = i
+		for _, want := range []string{sInc, sHost, sGHost, sGClu} {
+			if isCall(st, want) {
+				in[want] = i + 1
+			}
 		}
 	}
 	if connectIdx < 0 {
 		return "", fmt.Errorf("Connect() call not found in the connect loop")
 	}
-	incAfter, hostAfter := -1, -1
+	after := map[string]bool{}
 	for i, st := range init.Body.List {
 		if i <= loopIdx {
 			continue
 		}
-		if isCall(st, "clusterConnectionResource.Increase()") {
-			incAfter = i
-		}
-		if isCall(st, "p.readCallbacks.SetUpstreamHost(connectionData.Host)") {
-			hostAfter = i
+		for _, want := range []string{sInc, sHost, sGHost, sGClu} {
+			if isCall(st, want) {
+				after[want] = true
+			}
 		}
 	}
 	nInc := 0
@@ -87,15 +91,31 @@ func genRelayAcctSrc(repo string) (string, error) {
 		}
 		return true
 	})
-	var before bool
-	switch {
-	case incIn >= 0 && incIn < connectIdx && hostIn >= 0 && hostIn < connectIdx && incAfter < 0 && hostAfter < 0:
-		before = true
-	case incAfter >= 0 && hostAfter >= 0 && incIn < 0 && hostIn < 0:
-		before = false
-	default:
-		return "", fmt.Errorf("cannot place Increase/SetUpstreamHost relative to Connect (in-loop %d/%d, connect %d, after %d/%d)", incIn, hostIn, connectIdx, incAfter, hostAfter)
+	place := func(a, b string) (bool, error) { // both in front of Connect inside the loop, or both behind the loop
+		inA, inB := in[a] > 0 && in[a]-1 < connectIdx, in[b] > 0 && in[b]-1 < connectIdx
+		switch {
+		case inA && inB && !after[a] && !after[b]:
+			return true, nil
+		case after[a] && after[b] && in[a] == 0 && in[b] == 0:
+			return false, nil
+		}
+		return false, fmt.Errorf("cannot place %s / %s relative to Connect()", a, b)
 	}
+	before, err := place(sInc, sHost)
+	if err != nil {
+		return "", err
+	}
+	gaugesBefore, err := place(sGHost, sGClu)
+	if err != nil {
+		return "", err
+	}
+	errDec := errHas["clusterConnectionResource.Decrease()"]
+	gh, gc := errHas["connectionData.Host.HostStats().UpstreamConnectionActive.Dec(1)"], errHas["p.clusterInfo.Stats().UpstreamConnectionActive.Dec(1)"]
+	if gh != gc {
+		return "", fmt.Errorf("the Connect error branch gives back only one of the two active gauges")
+	}
+	errGauges := gh
+	errUnset := errHas["p.readCallbacks.SetUpstreamHost(nil)"]
 	// onUpstreamEvent
 	ev := FindFunc(f, "proxy", "onUpstreamEvent")
 	if ev == nil {
@@ -131,8 +151,8 @@ func genRelayAcctSrc(repo string) (string, error) {
 	finOK := finBody == "{ hostInfo := p.readCallbacks.UpstreamHost() if host, ok := hostInfo.(types.Host); ok { host.ClusterInfo().ResourceManager().Connections().Decrease() } }"
 	var out strings.Builder
 	out.WriteString("From MV Require Import Model.RelayAcct.\n\n")
-	fmt.Fprintf(&out, "(* initializeUpstreamConnection: Increase+SetUpstreamHost before Connect = %v; Decrease in the Connect error branch = %v;\n   onUpstreamEvent: the ConnectTimeout case finalizes = %v *)\n", before, errDec, finalizes["ConnectTimeout"])
-	fmt.Fprintf(&out, "Definition src_sw : sw := mkSw %s %s %s.\n", CoqBool(before), CoqBool(errDec), CoqBool(finalizes["ConnectTimeout"]))
+	fmt.Fprintf(&out, "(* initializeUpstreamConnection: Increase+SetUpstreamHost before Connect = %v; the two UpstreamConnectionActive++ before Connect = %v;\n   Connect error branch: Decrease = %v, the two UpstreamConnectionActive-- = %v, SetUpstreamHost(nil) = %v;\n   onUpstreamEvent: the ConnectTimeout case finalizes = %v *)\n", before, gaugesBefore, errDec, errGauges, errUnset, finalizes["ConnectTimeout"])
+	fmt.Fprintf(&out, "Definition src_sw : sw := mkSw %s %s %s %s %s %s.\n", CoqBool(before), CoqBool(gaugesBefore), CoqBool(errDec), CoqBool(errGauges), CoqBool(errUnset), CoqBool(finalizes["ConnectTimeout"]))
 	fmt.Fprintf(&out, "(* exactly one Increase call in the file (%d); all five close events finalize (%v); finalize is one Decrease guarded by the\n   upstream host being set (%v) *)\n", nInc, allClose, finOK)
 	fmt.Fprintf(&out, "Definition acct_shape_ok : bool := %s.\n", CoqBool(nInc == 1 && allClose && finOK))
 	out.WriteString("Definition RelayAcctSrc_translator_ok := true.\n")
